@@ -1,7 +1,568 @@
 package main
 
-// Counterexample replay against the real code (go test -overlay). Filled in per function kind.
+// Counterexample replay against the real code.
+//
+// A `sat` answer gives values for the function's inputs. They are turned into Go literals, the real
+// function is called from an in-package test injected with `go test -overlay` (nothing is written
+// to the repository), its outputs are read back, and the failed obligation is re-asked with the
+// inputs pinned to the model and the result pinned to what the real code returned. If that query is
+// still satisfiable the real code violates the clause on that input: a confirmed violation.
+
+import (
+	"bytes"
+	"context"
+	"encoding/json"
+	"fmt"
+	"go/types"
+	"math/big"
+	"os"
+	"os/exec"
+	"path/filepath"
+	"sort"
+	"strings"
+	"time"
+
+	"golang.org/x/tools/go/ssa"
+)
+
+// ---- s-expressions (solver values)
+
+type sx struct {
+	atom string
+	list []*sx
+}
+
+func parseSx(s string) *sx {
+	pos := 0
+	var rec func() *sx
+	skip := func() {
+		for pos < len(s) && (s[pos] == ' ' || s[pos] == '\n' || s[pos] == '\t') {
+			pos++
+		}
+	}
+	rec = func() *sx {
+		skip()
+		if pos >= len(s) {
+			return nil
+		}
+		if s[pos] == '(' {
+			pos++
+			n := &sx{}
+			for {
+				skip()
+				if pos >= len(s) {
+					return n
+				}
+				if s[pos] == ')' {
+					pos++
+					return n
+				}
+				c := rec()
+				if c == nil {
+					return n
+				}
+				n.list = append(n.list, c)
+			}
+		}
+		if s[pos] == '|' {
+			j := strings.IndexByte(s[pos+1:], '|')
+			a := s[pos : pos+j+2]
+			pos += j + 2
+			return &sx{atom: a}
+		}
+		st := pos
+		for pos < len(s) && s[pos] != ' ' && s[pos] != '(' && s[pos] != ')' && s[pos] != '\n' {
+			pos++
+		}
+		return &sx{atom: s[st:pos]}
+	}
+	return rec()
+}
+
+func (x *sx) String() string {
+	if x == nil {
+		return ""
+	}
+	if x.list == nil && x.atom != "" {
+		return x.atom
+	}
+	var parts []string
+	for _, c := range x.list {
+		parts = append(parts, c.String())
+	}
+	return "(" + strings.Join(parts, " ") + ")"
+}
+
+func (x *sx) isAtom() bool { return x != nil && x.list == nil && x.atom != "" }
+
+func sxInt(x *sx) (*big.Int, bool) {
+	if x == nil {
+		return nil, false
+	}
+	if x.isAtom() {
+		v, ok := new(big.Int).SetString(x.atom, 10)
+		return v, ok
+	}
+	if len(x.list) == 2 && x.list[0].atom == "-" {
+		v, ok := sxInt(x.list[1])
+		if !ok {
+			return nil, false
+		}
+		return new(big.Int).Neg(v), true
+	}
+	return nil, false
+}
+
+// ---- building Go literals and pinning terms from model values
+
+type replayCtx struct {
+	ex      *Exec
+	pkg     *types.Package
+	imports map[string]string // path -> name
+	pins    []*Term
+	notes   []string
+	fail    string
+	bigOf   func() (*big.Int, bool)
+	needBig bool
+}
+
+func (rc *replayCtx) qual(p *types.Package) string {
+	if p == rc.pkg {
+		return ""
+	}
+	return rc.importName(p.Path(), p.Name())
+}
+
+func (rc *replayCtx) importName(path, name string) string {
+	if n, ok := rc.imports[path]; ok {
+		return n
+	}
+	used := map[string]bool{}
+	for _, n := range rc.imports {
+		used[n] = true
+	}
+	n := name
+	for i := 2; used[n]; i++ {
+		n = fmt.Sprintf("%s%d", name, i)
+	}
+	rc.imports[path] = n
+	return n
+}
+
+func (rc *replayCtx) typeStr(t types.Type) string {
+	return types.TypeString(t, rc.qual)
+}
+
+var ifaceStubs = map[string][2]string{
+	"github.com/agglayer/aggkit/common.Logger":          {"github.com/agglayer/aggkit/log", "log.GetDefaultLogger()"},
+	"github.com/agglayer/aggkit/aggsender/types.Logger": {"github.com/agglayer/aggkit/log", "log.GetDefaultLogger()"},
+}
+
+// lit renders the Go literal for a model value of Go type t and returns the matching concrete term.
+func (rc *replayCtx) lit(t types.Type, v *sx, fieldsOf func(ref *big.Int, t types.Type) (string, bool)) (string, *Term, bool) {
+	p := rc.ex.p
+	t0 := t
+	t = types.Unalias(t)
+	if isHashType(t) || isAddrType(t) {
+		// abstract sorts: zero value, pinned to the zero constant
+		return rc.typeStr(t0) + "{}", rc.ex.tm.Zero(t), true
+	}
+	switch u := t.Underlying().(type) {
+	case *types.Basic:
+		switch {
+		case u.Info()&types.IsBoolean != 0:
+			if v.isAtom() && (v.atom == "true" || v.atom == "false") {
+				return v.atom, p.Bool(v.atom == "true"), true
+			}
+		case u.Info()&types.IsInteger != 0:
+			if n, ok := sxInt(v); ok {
+				return fmt.Sprintf("%s(%s)", rc.typeStr(t0), n.String()), p.IntBig(n), true
+			}
+		case u.Info()&types.IsString != 0:
+			return `""`, rc.ex.tm.Zero(t), true
+		}
+	case *types.Struct:
+		if len(v.list) != u.NumFields()+1 {
+			return "", nil, false
+		}
+		var parts []string
+		var terms []*Term
+		for i := 0; i < u.NumFields(); i++ {
+			s, tm, ok := rc.lit(u.Field(i).Type(), v.list[i+1], fieldsOf)
+			if !ok {
+				return "", nil, false
+			}
+			if u.Field(i).Exported() || u.Field(i).Pkg() == rc.pkg {
+				parts = append(parts, u.Field(i).Name()+": "+s)
+			}
+			terms = append(terms, tm)
+		}
+		return rc.typeStr(t0) + "{" + strings.Join(parts, ", ") + "}", p.Mk(rc.ex.tm.SortOf(t), terms...), true
+	case *types.Pointer:
+		n, ok := sxInt(v)
+		if !ok {
+			return "", nil, false
+		}
+		if n.Sign() == 0 {
+			return "nil", p.Int(0), true
+		}
+		if isNamed(u.Elem(), "math/big", "Int") && rc.bigOf != nil {
+			if bv, ok := rc.bigOf(); ok {
+				rc.imports["math/big"] = "big"
+				rc.needBig = true
+				return fmt.Sprintf("govcBig(%q)", bv.String()), p.IntBig(n), true
+			}
+			return "", nil, false
+		}
+		if fieldsOf != nil {
+			if s, ok := fieldsOf(n, u.Elem()); ok {
+				return s, p.IntBig(n), true
+			}
+		}
+		return "", nil, false
+	case *types.Interface:
+		n, ok := sxInt(v)
+		if !ok {
+			return "", nil, false
+		}
+		if n.Sign() == 0 {
+			return "nil", p.Int(0), true
+		}
+		if nt, ok := t.(*types.Named); ok && nt.Obj().Pkg() != nil {
+			if st, ok := ifaceStubs[nt.Obj().Pkg().Path()+"."+nt.Obj().Name()]; ok {
+				nm := rc.importName(st[0], filepath.Base(st[0]))
+				return strings.Replace(st[1], filepath.Base(st[0])+".", nm+".", 1), p.IntBig(n), true
+			}
+		}
+		return "", nil, false
+	case *types.Slice:
+		// (mk!Slice ref off len cap): only empty / nil slices are reconstructed
+		if len(v.list) == 5 {
+			ref, _ := sxInt(v.list[1])
+			ln, _ := sxInt(v.list[3])
+			if ref != nil && ref.Sign() == 0 {
+				return "nil", rc.ex.tm.Zero(t), true
+			}
+			if ln != nil && ln.Sign() == 0 {
+				return rc.typeStr(t0) + "{}", nil, true
+			}
+		}
+		return "", nil, false
+	}
+	return "", nil, false
+}
+
+// leafs enumerates comparable leaves (ints, bools) of a value for output pinning.
+type leaf struct {
+	path string // Go expression suffix relative to the root variable
+	term *Term
+	t    types.Type
+	cond string // Go guard (non-nil checks)
+}
+
+func (rc *replayCtx) leaves(rootExpr string, v Val, t types.Type, st *State, depth int, guard string, out *[]leaf) {
+	ex := rc.ex
+	p := ex.p
+	t = types.Unalias(t)
+	if isHashType(t) || isAddrType(t) {
+		return
+	}
+	switch u := t.Underlying().(type) {
+	case *types.Basic:
+		if u.Info()&(types.IsInteger|types.IsBoolean) != 0 {
+			if tm, ok := v.(*Term); ok {
+				*out = append(*out, leaf{rootExpr, tm, t, guard})
+			}
+		}
+	case *types.Struct:
+		tm, ok := v.(*Term)
+		if !ok {
+			return
+		}
+		for i := 0; i < u.NumFields(); i++ {
+			f := u.Field(i)
+			if !f.Exported() && f.Pkg() != rc.pkg {
+				continue
+			}
+			rc.leaves(rootExpr+"."+f.Name(), p.Acc(tm, i), f.Type(), st, depth, guard, out)
+		}
+	case *types.Slice:
+		if tm, ok := v.(*Term); ok {
+			*out = append(*out, leaf{"len(" + rootExpr + ")", p.Acc(tm, 2), types.Typ[types.Int], guard})
+		}
+	case *types.Interface:
+		if tm, ok := v.(*Term); ok {
+			*out = append(*out, leaf{"(" + rootExpr + " != nil)", p.Not(p.Eq(tm, p.Int(0))), types.Typ[types.Bool], guard})
+		}
+	case *types.Pointer:
+		tm, err := ex.ptrTerm(v)
+		if err != nil {
+			return
+		}
+		*out = append(*out, leaf{"(" + rootExpr + " != nil)", p.Not(p.Eq(tm, p.Int(0))), types.Typ[types.Bool], guard})
+		if isNamed(u.Elem(), "math/big", "Int") {
+			if s, known := ex.regionSorts["gf:bigval"]; known {
+				ex.noOblige++
+				r := ex.getRegion(st, "gf:bigval", s)
+				ex.noOblige--
+				g := rootExpr + " != nil"
+				if guard != "" {
+					g = guard + " && " + g
+				}
+				*out = append(*out, leaf{rootExpr + ".String()", p.Select(r, tm), types.Typ[types.Int], g})
+			}
+			return
+		}
+		if depth >= 2 {
+			return
+		}
+		sT, ok := derefStruct(u.Elem())
+		if !ok || isHashType(u.Elem()) || isAddrType(u.Elem()) {
+			return
+		}
+		g := rootExpr + " != nil"
+		if guard != "" {
+			g = guard + " && " + g
+		}
+		for i := 0; i < sT.NumFields(); i++ {
+			f := sT.Field(i)
+			if !f.Exported() && f.Pkg() != rc.pkg {
+				continue
+			}
+			name := fieldRegion(u.Elem(), sT, i)
+			s, known := ex.regionSorts[name]
+			if !known {
+				continue
+			}
+			ex.noOblige++
+			r := ex.getRegion(st, name, s)
+			ex.noOblige--
+			rc.leaves(rootExpr+"."+f.Name(), p.Select(r, tm), f.Type(), st, depth+1, g, out)
+		}
+	}
+}
 
 func tryReplay(P *Program, rep *FuncReport, o *Obligation, r *SolveResult, out map[string]interface{}, repo string) bool {
+	ex := rep.ex
+	fn := rep.fn
+	if fn == nil || fn.Pkg == nil || rep.final == nil {
+		out["replay"] = "no replay driver for this kind of obligation"
+		return false
+	}
+	if fn.Parent() != nil {
+		out["replay"] = "closures are not replayed"
+		return false
+	}
+	rc := &replayCtx{ex: ex, pkg: fn.Pkg.Pkg, imports: map[string]string{"fmt": "fmt", "testing": "testing"}}
+	model := map[string]*sx{}
+	for k, v := range r.Model {
+		model[k] = parseSx(v)
+	}
+	fieldsOf := func(prm string) func(ref *big.Int, t types.Type) (string, bool) {
+		return func(ref *big.Int, t types.Type) (string, bool) {
+			sT, ok := derefStruct(t)
+			if !ok {
+				return "", false
+			}
+			var parts []string
+			for i := 0; i < sT.NumFields(); i++ {
+				f := sT.Field(i)
+				key := "in:" + prm + "." + f.Name()
+				mv, ok := model[key]
+				if !ok {
+					continue // region never read: zero value is as good as any
+				}
+				s, tm, ok := rc.lit(f.Type(), mv, nil)
+				if !ok {
+					rc.notes = append(rc.notes, "field "+key+" could not be reconstructed; left at its zero value and not pinned")
+					continue
+				}
+				if f.Exported() || f.Pkg() == rc.pkg {
+					parts = append(parts, f.Name()+": "+s)
+				}
+				if tm != nil {
+					rc.pins = append(rc.pins, ex.p.Eq(ex.inputs[key], tm))
+				}
+			}
+			return "&" + rc.typeStr(t) + "{" + strings.Join(parts, ", ") + "}", true
+		}
+	}
+	var argExprs []string
+	for i, prm := range fn.Params {
+		key := "in:" + prm.Name()
+		mv, ok := model[key]
+		if !ok {
+			out["replay"] = "model has no value for " + key
+			return false
+		}
+		prmName := prm.Name()
+		rc.bigOf = func() (*big.Int, bool) {
+			if mv, ok := model["in:"+prmName+"#bigval"]; ok {
+				if n, ok := sxInt(mv); ok {
+					rc.pins = append(rc.pins, ex.p.Eq(ex.inputs["in:"+prmName+"#bigval"], ex.p.IntBig(n)))
+					return n, true
+				}
+			}
+			return nil, false
+		}
+		s, tm, ok := rc.lit(prm.Type(), mv, fieldsOf(prm.Name()))
+		if !ok {
+			out["replay"] = fmt.Sprintf("input %s of type %s cannot be reconstructed from the model (%s)", prm.Name(), prm.Type(), r.Model[key])
+			return false
+		}
+		if tm != nil {
+			rc.pins = append(rc.pins, ex.p.Eq(ex.inputs[key], tm))
+		}
+		argExprs = append(argExprs, fmt.Sprintf("a%d := %s", i, s))
+	}
+	// call expression
+	var call string
+	nres := fn.Signature.Results().Len()
+	var lhs []string
+	for i := 0; i < nres; i++ {
+		lhs = append(lhs, fmt.Sprintf("r%d", i))
+	}
+	var argNames []string
+	for i := range fn.Params {
+		argNames = append(argNames, fmt.Sprintf("a%d", i))
+	}
+	if fn.Signature.Recv() != nil {
+		call = fmt.Sprintf("a0.%s(%s)", fn.Name(), strings.Join(argNames[1:], ", "))
+	} else {
+		call = fmt.Sprintf("%s(%s)", fn.Name(), strings.Join(argNames, ", "))
+	}
+	if nres > 0 {
+		call = strings.Join(lhs, ", ") + " := " + call
+	}
+	// output leaves
+	var lv []leaf
+	for i := 0; i < nres; i++ {
+		rc.leaves(fmt.Sprintf("r%d", i), rep.results[i], fn.Signature.Results().At(i).Type(), rep.final, 0, "", &lv)
+	}
+	var body bytes.Buffer
+	for _, a := range argExprs {
+		body.WriteString("\t" + a + "\n")
+	}
+	body.WriteString("\t" + call + "\n")
+	for i := range lhs {
+		body.WriteString(fmt.Sprintf("\t_ = r%d\n", i))
+	}
+	for i, l := range lv {
+		line := fmt.Sprintf("fmt.Printf(\"GOVC-LEAF %d %%v\\n\", %s)", i, l.path)
+		if l.cond != "" {
+			line = "if " + l.cond + " { " + line + " }"
+		}
+		body.WriteString("\t" + line + "\n")
+	}
+	var imps []string
+	for path, name := range rc.imports {
+		imps = append(imps, fmt.Sprintf("\t%s %q", name, path))
+	}
+	sort.Strings(imps)
+	helper := ""
+	if rc.needBig {
+		helper = "func govcBig(s string) *big.Int { v, _ := new(big.Int).SetString(s, 10); return v }\n\n"
+	}
+	src := fmt.Sprintf("package %s\n\nimport (\n%s\n)\n\n%sfunc TestGovcReplay(t *testing.T) {\n\tdefer func() {\n\t\tif r := recover(); r != nil {\n\t\t\tfmt.Printf(\"GOVC-PANIC %%v\\n\", r)\n\t\t}\n\t}()\n%s\tfmt.Println(\"GOVC-DONE\")\n}\n",
+		fn.Pkg.Pkg.Name(), strings.Join(imps, "\n"), helper, body.String())
+	out["replay_test"] = src
+	out["replay_notes"] = rc.notes
+	// run it
+	tmp, err := os.MkdirTemp("", "govc-replay")
+	if err != nil {
+		return false
+	}
+	defer os.RemoveAll(tmp)
+	pkgDir := filepath.Dir(P.Fset.Position(fn.Pos()).Filename)
+	testFile := filepath.Join(tmp, "zz_govc_replay_test.go")
+	os.WriteFile(testFile, []byte(src), 0o644)
+	ov, _ := json.Marshal(map[string]interface{}{"Replace": map[string]string{filepath.Join(pkgDir, "zz_govc_replay_test.go"): testFile}})
+	ovFile := filepath.Join(tmp, "overlay.json")
+	os.WriteFile(ovFile, ov, 0o644)
+	ctx, cancel := context.WithTimeout(context.Background(), 240*time.Second)
+	defer cancel()
+	cmd := exec.CommandContext(ctx, "go", "test", "-overlay", ovFile, "-vet=off", "-v", "-count=1", "-timeout", "60s", "-run", "^TestGovcReplay$", ".")
+	cmd.Dir = pkgDir
+	cmd.Env = append(os.Environ(), "GOFLAGS=-mod=mod", "GOPROXY=off")
+	var ob bytes.Buffer
+	cmd.Stdout = &ob
+	cmd.Stderr = &ob
+	cmd.Run()
+	txt := ob.String()
+	if len(txt) > 6000 {
+		txt = txt[:6000]
+	}
+	out["replay_output"] = txt
+	if strings.Contains(txt, "GOVC-PANIC") {
+		// the real code panics on this input
+		out["replay"] = "the real function panics on the model input"
+		if strings.HasPrefix(o.Kind, "nopanic") {
+			return true
+		}
+		return false
+	}
+	if !strings.Contains(txt, "GOVC-DONE") {
+		out["replay"] = "replay test did not run to completion"
+		return false
+	}
+	if strings.HasPrefix(o.Kind, "nopanic") {
+		out["replay"] = "the real function does not panic on the model input"
+		return false
+	}
+	p := ex.p
+	pins := append([]*Term(nil), rc.pins...)
+	observed := map[string]string{}
+	for _, line := range strings.Split(txt, "\n") {
+		var idx int
+		var val string
+		if n, _ := fmt.Sscanf(line, "GOVC-LEAF %d %s", &idx, &val); n == 2 && idx < len(lv) {
+			l := lv[idx]
+			observed[l.path] = val
+			switch {
+			case l.term.Sort.Kind == SBool:
+				pins = append(pins, p.Eq(l.term, p.Bool(val == "true")))
+			case l.term.Sort.Kind == SInt:
+				if n, ok := new(big.Int).SetString(val, 10); ok {
+					pins = append(pins, p.Eq(l.term, p.IntBig(n)))
+				}
+			}
+		}
+	}
+	out["replay_observed"] = observed
+	// re-ask the obligation with inputs and outputs pinned.
+	//  A: facts ∧ pins ∧ ¬goal  sat            → the observed behaviour violates the clause
+	//  B: facts ∧ pins ∧ goal   unsat, while C: facts ∧ pins is not unsat → likewise (proof-style answer, robust with quantifiers)
+	extra := ex.p.And(pins...)
+	base := strings.TrimSuffix(r.File, ".smt2")
+	fa := base + ".replayA.smt2"
+	writeFile(fa, ex.renderOpt(o, []*Term{extra}, false, false))
+	ra := Solve(fa, 10, false, false)
+	out["replay_query"] = fa
+	out["replay_query_status"] = ra.Status
+	if ra.Status == "sat" {
+		out["replay"] = "confirmed: with the inputs of the model the real function returned the observed values, which violate the clause"
+		return true
+	}
+	if ra.Status != "unsat" {
+		fb := base + ".replayB.smt2"
+		writeFile(fb, ex.renderOpt(o, []*Term{extra}, false, true))
+		rb := Solve(fb, 10, false, false)
+		out["replay_queryB_status"] = rb.Status
+		if rb.Status == "unsat" {
+			oc := *o
+			oc.Goal = ex.p.False()
+			fc := base + ".replayC.smt2"
+			writeFile(fc, ex.renderOpt(&oc, []*Term{extra}, false, false))
+			rcx := Solve(fc, 10, false, true)
+			out["replay_queryC_status"] = rcx.Status
+			if rcx.Status != "unsat" {
+				out["replay"] = "confirmed: the values the real function returned on the model input are inconsistent with the clause (clause ∧ observed values is unsatisfiable, observed values alone are not)"
+				return true
+			}
+		}
+	}
+	out["replay"] = "not confirmed: the real function's output on the model input does not violate the clause under the encoding (" + ra.Status + ")"
 	return false
 }
+
+var _ = ssa.Function{}
